@@ -98,7 +98,7 @@ def parse_out(out):
         elif t[0] == "MSG":
             cur["msg"] = line[4:]
         elif t[0] in ("D", "D3"):
-            cur[t[0]].append((t[1], int(t[2]), int(t[3]), int(t[4]), float(t[5]), float(t[6])))
+            cur[t[0]].append((t[1], int(t[2]), int(t[3]), int(t[4]), float(t[5]), float(t[6]), float(t[7]) if len(t) > 7 else math.inf))
         elif t[0] == "FIX":
             cur["fix"] = int(t[1])
         elif t[0] == "DC":
@@ -126,18 +126,65 @@ def rel(a, b):
     return abs(a - b) / max(abs(a), abs(b), 1e-300)
 
 
-def classify(c, feature, prec):
+MASSDERIVED = re.compile(r"^(body_mass|body_subtreemass|body_inertia|body_ipos|body_iquat|body_invweight0|dof_invweight0|dof_M0|stat\.\w+|"
+                         r"actuator_acc0|tendon_invweight0|cam_poscom0|cam_pos0|cam_mat0|light_poscom0|light_pos0|light_dir0|body_simple|body_sameframe|"
+                         r"geom_sameframe|site_sameframe|bvh_\w+|nC|nM|nD|nB|nbuffer|nbvh\w*|dof_simplenum|dof_length|actuator_biasprm|actuator_gainprm|geom_fluid|"
+                         r"body_bvhadr|body_bvhnum)$")
+MESHDERIVED = re.compile(r"^(mesh_\w+|geom_aabb|geom_rbound|geom_pos|geom_quat|geom_size|geom_surfacevel|nmesh\w+)$")
+# with free-joint alignment the body frame itself is derived from the inertia
+ALIGNDERIVED = re.compile(r"^(qpos0|qpos_spring|body_pos|body_quat|site_pos|site_quat|geom_pos|geom_quat|key_qpos|cam_pos|cam_quat|light_pos|light_dir|jnt_pos|jnt_axis)$")
+KEYFIELDS = re.compile(r"^(key_\w+|name_keyadr|names|names_map|nnames|nnames_map)$")
+COMPILER_LOSSY = ("settotalmass", "inertiafromgeom", "inertiagrouprange", "balanceinertia", "fitaabb")
+
+
+def body_order(xml_text):
+    try:
+        return [e.attrib.get("name") for e in ET.fromstring(xml_text).iter("body")]
+    except ET.ParseError:
+        return None
+
+
+def attribute(c, feature, fields, src):
+    """positive attribution of a difference to one of the recorded mechanisms: the source has the construct
+    AND the differing fields are of the kind that mechanism produces.  None = not attributed."""
+    base = {f.replace("gen3:", "") for f in fields}
+    src = src or ""
+    if re.search(r"alignfree=\"true\"|<freejoint[^>]*align=\"true\"", src):
+        base = {f for f in base if not ALIGNDERIVED.match(f)} or base
+    if c["status"] == "fail:recompile" and feature == "meshshell" and "for mesh geoms, inertia should be specified" in c["msg"] \
+            and re.search(r"<default.*<geom[^>]*shellinertia=\"true\"", src, re.S):
+        return "mesh-shellinertia-class"
+    if feature in COMPILER_LOSSY and re.search(r"<compiler[^>]*\b%s=" % feature, src):
+        if c["status"] == "fail:recompile":
+            return feature if ("mass and inertia" in c["msg"] or "inertia must satisfy" in c["msg"]) else None
+        return feature if base and all(MASSDERIVED.match(f) for f in base) else None
+    if feature == "mesh" and re.search(r"<mesh [^>]*vertex=", src) and base and any(f.startswith("mesh_") for f in base) \
+            and all(MESHDERIVED.match(f) or MASSDERIVED.match(f) for f in base):
+        return "mesh"
+    if feature == "hfield" and re.search(r"<hfield [^>]*elevation=", src) and base == {"hfield_data"}:
+        return "hfield"
+    if feature == "emptykey" and re.search(r"<key\s*/>", src) and base and all(KEYFIELDS.match(f) for f in base):
+        return "emptykey"
+    if feature == "bodyframe" and c.get("xml"):
+        a, b = body_order(src), body_order(c["xml"])
+        if a is not None and b is not None and a != b and sorted(map(str, a)) == sorted(map(str, b)):
+            return "bodyframe"
+    if feature == "freealign" and re.search(r"<freejoint[^>]*\balign=", src) and c.get("xml") and "align=" not in c["xml"].replace("alignfree=", ""):
+        return "freealign"
+    return None
+
+
+def classify(c, feature, prec, src=None):
     """returns None (no violation) or (signature, summary)"""
     st = c["status"]
     if st.startswith("skip"):
         return None
     if st.startswith("fail"):
         m = c["msg"]
-        if "unrecognized element" in m and ("'kinetic'" in m or "'potential'" in m):
-            return {"class": "writer-tag-energy-sensor", "stage": st[5:]}, m
-        if "actdim" in m or "state array dimension" in m:
+        if st == "fail:recompile" and ("invalid actdim" in m or "state array dimension" in m) and src and re.search(r"<default.*\bactdim=", src, re.S):
             return {"class": "actdim-class-default", "stage": st[5:]}, m
-        return {"class": feature or "core", "stage": st[5:]}, m
+        cls = attribute(c, feature, [], src)
+        return {"class": cls or "core", "stage": st[5:]}, m
     diffs = c["D"] + [("gen3:" + d[0],) + d[1:] for d in c["D3"]]
     if prec < 17:
         diffs = [d for d in diffs if not DERIVED.match(d[0].replace("gen3:", ""))]
@@ -145,12 +192,15 @@ def classify(c, feature, prec):
         return None
     worst = max(rel(d[4], d[5]) if d[1] >= 0 else math.inf for d in diffs)
     fields = sorted({d[0] for d in diffs})
-    if prec >= 17 and all(d[1] >= 0 and abs(d[4] - d[5]) <= 1e-12 * max(1.0, abs(d[4]), abs(d[5])) for d in diffs):
+    if prec >= 17 and all(d[6] <= 1e-12 for d in diffs):
         return {"class": "tolerance-1e-12"}, "%d fields differ by at most 1e-12 (scaled): %s" % (len(fields), ", ".join(fields[:6]))
-    if feature:
-        return {"class": feature}, "%d fields differ: %s" % (len(fields), ", ".join(fields[:8]))
+    # fields whose every difference is within the recorded 1e-12 tolerance do not count against the attribution
+    big = sorted({d[0] for d in diffs if not (prec >= 17 and d[6] <= 1e-12)})
+    cls = attribute(c, feature, big, src)
+    if cls:
+        return {"class": cls}, "%d fields differ: %s" % (len(fields), ", ".join(fields[:8]))
     base = {f.replace("gen3:", "") for f in fields}
-    if base <= {"jnt_user", "geom_user", "site_user", "cam_user", "tendon_user", "actuator_user", "body_user", "sensor_user"}:
+    if base <= {"jnt_user", "geom_user", "site_user", "cam_user", "tendon_user", "actuator_user"} and src and re.search(r"<default.*\buser=", src, re.S):
         return {"class": "default-userdata-zero"}, ", ".join(fields)
     return {"class": "core", "field": sorted(base)[0]}, "%d fields differ: %s" % (len(fields), ", ".join(fields[:8]))
 
@@ -333,6 +383,35 @@ def q_lit(x):
     return "(%s # %d)" % (("(%d)" % q.numerator) if q.numerator < 0 else str(q.numerator), q.denominator)
 
 
+def replay_case(ctx, exe, rp):
+    """./check C32 --replay f : re-run one recorded round trip on the working tree"""
+    c = rp["case"]
+    prec = int(c.get("prec", 17))
+    if "xml" in c:
+        x = c["xml"]
+        cmd = "X rp %d 1 %d\n%s\n" % (prec, len(x.encode()), x)
+    elif "ext" in c:
+        cmd = "E rp %d 1 %d %d %d %d\n" % (prec, c["seed"], c["feat"], c["nbody"], c["ext"])
+    else:
+        cmd = "G rp %d 1 %d %d %d\n" % (prec, c["seed"], c["feat"], c["nbody"])
+    rc, out, err = ctx.run(exe, cmd, timeout=120)
+    res = parse_out(out)
+    if rc != 0 or not res:
+        ctx.broken.append(("correspondence", "replay did not run", err[-300:]))
+        return
+    r = classify(res[0], c.get("feature"), prec, c.get("xml"))
+    if r is not None:
+        sig, summary = r
+        ctx.violation("impl_violation", dict(c, saved_xml=(res[0]["xml"] or "")[:6000]), expected="identical compiled arrays after save/parse/compile",
+                      observed={"status": res[0]["status"], "msg": res[0]["msg"], "summary": summary, "diffs": [list(d) for d in res[0]["D"][:12]]},
+                      theorem=rp.get("theorem"), signature=sig)
+    ctx.cov["evaluations"] = 1
+    ctx.cov["distinct_nontrivial"] = 0 if res[0]["status"].startswith("skip") else 1
+    ctx.cov["rule"] = "replay of one recorded round trip"
+    ctx.cov["samples"] = [dict((k, v) for k, v in c.items() if k not in ("xml", "saved_xml"))]
+    ctx.cov["explanation"] = "replay: %s" % (res[0]["status"] if r is None else r[1])
+
+
 # ------------------------------------------------------------------ run
 def run(ctx):
     rng = ctx.rng
@@ -372,6 +451,10 @@ def run(ctx):
         ctx.broken.append(("build", "XML-enabled library or driver c32_roundtrip does not build from the working tree", str(e)[-1500:]))
         return
 
+    rp = getattr(ctx, "replay", None)
+    if rp and isinstance(rp.get("case"), dict) and ("xml" in rp["case"] or "seed" in rp["case"]):
+        return replay_case(ctx, exe, rp)
+
     # ---------------- corpus
     jobs = []      # (id, kind, prec, feature, text of the driver command, replay info)
     n_core = 90 if quick else 700
@@ -399,7 +482,7 @@ def run(ctx):
             ext = 1 + rng.randrange(7)     # default classes / full keyframes / frames through the mjSpec API (c32_gen.h)
             jobs.append(("gen%d" % i, "E", 17, None, "E gen%d 17 0 %d %d %d %d\n" % (i, sd, feat, nb, ext),
                          {"gen": "mjgen.h+c32_gen.h", "seed": sd, "feat": feat, "nbody": nb, "ext": ext, "prec": 17}))
-    FEATURES = ["energy", "emptykey", "settotalmass", "inertiafromgeom", "inertiagrouprange", "balanceinertia", "fitaabb", "mesh", "hfield", "bodyframe", "freealign"]
+    FEATURES = ["energy", "emptykey", "settotalmass", "inertiafromgeom", "inertiagrouprange", "balanceinertia", "fitaabb", "mesh", "hfield", "bodyframe", "freealign"]   # "meshshell" has only the fixed probe
     for f in FEATURES:
         for i in range(n_probe):
             xjob("%s%d" % (f, i), seed0 + 200000 + i, 2, 17, f)
@@ -415,6 +498,9 @@ def run(ctx):
                                       '<frame><body name="c" pos="2 0 0"><joint/><geom size="0.3"/></body></frame></worldbody></mujoco>'),
         "fx_freealign": ("freealign", '<mujoco><compiler alignfree="true"/><worldbody><body name="b0" pos="0 0 1"><freejoint name="j0" align="false"/>'
                                       '<geom type="box" size="0.1 0.2 0.3" pos="0.1 0.2 0.3" euler="10 20 30"/></body></worldbody></mujoco>'),
+        "fx_meshshell": ("meshshell", '<mujoco><default><default class="c"><geom shellinertia="true"/></default></default>'
+                                      '<asset><mesh name="m" vertex="0 0 0 1 0 0 0 1 0 0 0 1" face="0 2 1 0 1 3 0 3 2 1 2 3"/></asset><worldbody><body><joint/>'
+                                      '<geom class="c" type="mesh" mesh="m" shellinertia="false" contype="0" conaffinity="0"/></body></worldbody></mujoco>'),
         "fx_nearint": (None, '<mujoco><worldbody><body pos="1.0000000000001 0 0"><joint/><geom size="0.1"/></body></worldbody></mujoco>'),
         "fx_neardef": (None, '<mujoco><worldbody><body><joint armature="1e-16"/><geom size="0.1"/></body></worldbody></mujoco>'),
     }
@@ -441,7 +527,7 @@ def run(ctx):
             continue
         if c["xml"] is None or True:
             nontrivial.add(hashlib.sha256(cmd.encode()).hexdigest()[:12])
-        res = classify(c, feature, prec)
+        res = classify(c, feature, prec, info.get("xml"))
         if res is None:
             stats["ok"] += 1
             continue
@@ -455,7 +541,7 @@ def run(ctx):
         ctx.violation("impl_violation", dict(info, case_id=cid, saved_xml=(c["xml"] or "")[:6000], n_cases_in_class=len(lst)),
                       expected="model -> mj_saveXMLString -> mj_parseXMLString -> mj_compile gives the same compiled arrays (prec %d)" % info.get("prec", 17),
                       observed={"status": c["status"], "msg": c["msg"], "summary": summary,
-                                "diffs": [list(d) for d in c["D"][:12]], "gen3_diffs": [list(d) for d in c["D3"][:6]]},
+                                "diffs": [list(d) for d in c["D"][:60]], "gen3_diffs": [list(d) for d in c["D3"][:6]]},
                       theorem="property statement (oracle on implementation output)", signature=sig)
 
     # ---------------- tie (a)
